@@ -72,6 +72,9 @@ op_st = st.one_of(
               st.sampled_from(['mutate', 'fresh']), st.integers(0, 9)).map(lambda t: ['upd', t[0], t[1], t[2], t[3]]),
     query_st.map(lambda q: ['query', q]),
     query_st.map(lambda q: ['query', q]),
+    # an address query for a host name that several services share, and one of them unregistered while the reply is still queued:
+    # the host's records still answer the question (a sibling keeps them alive) and must be sent
+    st.tuples(st.integers(0, 5), st.sampled_from([0, 1, 19, 30, 100, 400]), st.booleans()).map(lambda t: ['unregrace', t[0], t[1], t[2]]),
     # a query for a service, answered from the outgoing queues up to 1.2 s later, and an update of that service in between: what
     # is transmitted after the update must not carry the records the update replaced
     st.tuples(st.integers(0, 5), st.sampled_from(['port', 'text', 'addrs']), st.integers(0, 9),
@@ -145,6 +148,9 @@ class Exec:
             k = op[1] % len(pool) if kind != 'query' else 0
             if kind == 'updrace':
                 await self.update_race(w, host, k, op)
+                return
+            if kind == 'unregrace':
+                await self.unregister_race(w, host, k, op)
                 return
             if kind != 'query' and self.stats['queries']:
                 # answers queued for earlier queries (aggregation / 1 s protection, <= 1.2 s) must not race registry
@@ -229,6 +235,49 @@ class Exec:
             elif kind == 'query':
                 await self.query(w, op[1])
             await asyncio.sleep(0.05)
+
+    async def unregister_race(self, w: sim.World, host: sim.Host, k: int, op: List[Any]) -> None:
+        if k not in self.infos:
+            return
+        d = self.descs[k]
+        siblings = [j for j in self.infos if j != k and self.descs[j]['server'].lower() == d['server'].lower()]
+        if not siblings:
+            return
+        _, _, gap, sighting = op
+        await asyncio.sleep(1.7)
+        if sighting:
+            rrs = [rp.wire_rr_of_ident(i, t, flush=True) for i, t in rp.Svc(d).records_with_ttl().items() if i[0] in ('A', 'AAAA')]
+            w.net.inject(host, wire.encode({'id': 0, 'flags': 0x8400, 'qd': [], 'an': rrs, 'ns': [], 'ar': []}), ('10.0.0.200', 5353))
+            await asyncio.sleep(0.3)
+        questions = [(d['server'], 1), (d['server'], 28)]
+        n0 = len(w.net.trace)
+        w.net.inject(host, rp.build_query([(nm, t, False) for nm, t in questions], [], qid=0), (CLIENT_IP, 5353))
+        await asyncio.sleep(gap / 1000.0)
+        self.retired[k] = self.infos[k]
+        task = await host.azc.async_unregister_service(self.infos.pop(k))
+        await task
+        self.model.unregister(d['name'])
+        self.changed = True
+        await asyncio.sleep(1.7)
+        exp, dont_care, _, _ = self.model.answers(questions, [])
+        if any(self.descs[j]['addrs'] != self.descs[siblings[0]]['addrs'] for j in siblings):
+            return          # siblings that disagree on the address set: whose view wins is outside the claim
+        got = set()
+        for e in w.net.trace[n0:]:
+            if e['host'] != 'R' or e['dst'] != sim.MDNS4:
+                continue
+            m = sim.decode_trace_entry(e)
+            if m is None or not m['flags'] & 0x8000:
+                continue
+            got |= {rp.ident_of_wire_rr(r) for r in m['an'] + m['ar'] if r['ttl'] > 0}
+        missing = [i for i in exp if i[0] in ('A', 'AAAA') and i not in got]
+        self.stats['unregister_races'] = self.stats.get('unregister_races', 0) + 1
+        self.nontrivial = True
+        if missing:
+            raise Violation('an address question for a host name that a still registered service uses was left unanswered after a sibling '
+                            'on that host name was unregistered while the reply was queued',
+                            {'host': d['server'], 'unregistered': d['name'], 'query_to_unregister_ms': gap, 'missing': missing,
+                             'still_registered': [self.descs[j]['name'] for j in siblings]}, tag='answer-missing-after-sibling-unregistered')
 
     async def update_race(self, w: sim.World, host: sim.Host, k: int, op: List[Any]) -> None:
         if k not in self.infos:
